@@ -115,7 +115,7 @@ CHECKS["C19"] = dict(
     design="§4 C19")
 
 CHECKS["C13"] = dict(
-    text="Solver-partitioned exhaustive exploration of (program x read-only query sequence of length <=3 quick / <=4 thorough over 11 "
+    text="Solver-partitioned exhaustive exploration of (program x read-only query sequence of length <=3 quick / <=4 thorough over 13 "
          "queries): after every query the answer equals that of a fresh parse of the same bytes and dumps() is unchanged. Hash-seed "
          "independence is checked by spawning fresh interpreters under three PYTHONHASHSEED values and comparing answer digests; that "
          "part is not a solver claim and is reported separately in the evidence.",
